@@ -475,6 +475,50 @@ tunnel-group DefaultWEBVPNGroup webvpn-attributes
  authentication certificate
 tunnel-group-map default-group DefaultRAGroup
 `),
+		// a map-value whose DN is one word is written without quotes on the device; a RADIUS server group (two hosts, other settings per
+		// host) used by a hand-made tunnel-group is none of the tool's business (coverage item 19)
+		mk("unquoted-map-value-and-radius-server", `
+group-policy VPN-ldap-0-DRC-0 internal
+group-policy VPN-ldap-0-DRC-0 attributes
+ vpn-idle-timeout 60
+crypto ca certificate map ca-map-1-DRC-0 10
+ subject-name attr ea co @sub1.example.com
+aaa-server LDAP1 protocol ldap
+aaa-server LDAP1 (inside) host 10.2.8.16
+ ldap-attribute-map LDAPMAP1
+aaa-server RAD protocol radius
+aaa-server RAD (inside) host 10.2.7.1
+ key *****
+aaa-server RAD (inside) host 10.2.7.2
+ key *****
+ timeout 5
+tunnel-group MANUAL-RA type remote-access
+tunnel-group MANUAL-RA general-attributes
+ authentication-server-group RAD
+ldap attribute-map LDAPMAP1
+ map-name memberOf Group-Policy
+ map-value memberOf CN=g-m0,OU=VPN,DC=example,DC=com VPN-ldap-0-DRC-0
+tunnel-group VPN-tunnel-1-DRC-0 type remote-access
+tunnel-group VPN-tunnel-1-DRC-0 general-attributes
+ authentication-server-group LDAP1
+tunnel-group-map ca-map-1-DRC-0 10 VPN-tunnel-1-DRC-0
+`, `
+group-policy VPN-ldap-0 internal
+group-policy VPN-ldap-0 attributes
+ vpn-idle-timeout 60
+crypto ca certificate map ca-map-1 10
+ subject-name attr ea co @sub1.example.com
+aaa-server LDAP1 protocol ldap
+aaa-server LDAP1 host X
+ ldap-attribute-map LDAPMAP1
+ldap attribute-map LDAPMAP1
+ map-name memberOf Group-Policy
+ map-value memberOf "CN=g-m0,OU=VPN,DC=example,DC=com" VPN-ldap-0
+tunnel-group VPN-tunnel-1 type remote-access
+tunnel-group VPN-tunnel-1 general-attributes
+ authentication-server-group LDAP1
+tunnel-group-map ca-map-1 10 VPN-tunnel-1
+`),
 		// the target has no VPN part at all: everything is removed in an order the device accepts
 		mk("everything-removed", `
 access-list vpn-filter-DRC-0 extended permit ip host 10.3.4.1 10.1.1.0 255.255.255.0
